@@ -171,6 +171,11 @@ fn replay_file(prop: &str, path: &str) -> Result<Vec<Violation>, String> {
             }
             builder::eval_build_case(prop, &c).violations
         }
+        "build-history" => {
+            let c: BuildCase = serde_json::from_value(case).map_err(|e| e.to_string())?;
+            let k = dec.get("other_builds").and_then(|k| k.as_u64()).unwrap_or(0);
+            builder::eval_build_history(prop, &c, k).0.into_iter().collect()
+        }
         "seq" => {
             let c: SeqCase = serde_json::from_value(case).map_err(|e| e.to_string())?;
             seq::eval_seq(&c).violations
@@ -376,6 +381,21 @@ fn run_prop(prop: &'static str, thorough: bool) -> Part {
                 part.engines.push(json!({"engine": "big builds: instances on which one build() performs more than 2^16 (thorough: 2^17) pair look-ups, most conflicting pairs joined directly by a user edge (bipartite writer x reader graphs, windowed clusters)", "instances": big.instances, "max_n": big.max_n, "max_conflicting_pairs": big.max_conflicting_pairs, "all_instances": big.samples, "wall_s": t.elapsed().as_secs_f64()}));
                 if let Some((v, case)) = big.violation {
                     let f = Failure { check: format!("big-builds:{prop}"), violation: v.clone(), tapes: vec![], decoded: builder::build_decoded(&case) };
+                    let p = write_replay(prop, &f);
+                    part.violations.push((v, p));
+                }
+            }
+            if (prop == "C11" || prop == "C12" || prop == "C13") && part.violations.is_empty() {
+                let t = Instant::now();
+                let bh = builder::build_histories(prop, seed());
+                part.stats.evaluations += bh.instances;
+                part.stats.executions += bh.builds;
+                for h in &bh.hashes {
+                    part.stats.nontrivial.insert(*h);
+                }
+                part.engines.push(json!({"engine": "build histories: a graph is built, K tiny graphs are built on the same thread (K around 2^8 and 2^16), the first graph is built again and judged", "instances": bh.instances, "builds": bh.builds, "all_instances": bh.samples, "wall_s": t.elapsed().as_secs_f64()}));
+                if let Some((v, case, k)) = bh.violation {
+                    let f = Failure { check: format!("build-histories:{prop}"), violation: v.clone(), tapes: vec![], decoded: json!({"kind": "build-history", "case": case, "other_builds": k}) };
                     let p = write_replay(prop, &f);
                     part.violations.push((v, p));
                 }
